@@ -6,6 +6,9 @@ use crate::{
     prelude::*,
     types::{FunctionContext, meta_id_to_key, value::RegisterSlice},
 };
+#[cfg(koto_verif)]
+use crate::verif::SimInstant as Instant;
+#[cfg(not(koto_verif))]
 use instant::Instant;
 use koto_bytecode::{Chunk, Instruction, InstructionReader, ModuleLoader};
 use koto_parser::{
@@ -276,6 +279,23 @@ impl KotoVm {
     /// The `stderr` wrapper used by the VM
     pub fn stderr(&self) -> &Ptr<dyn KotoFile> {
         &self.context.settings.stderr
+    }
+
+    /// Reports the sizes of the VM's internal stacks
+    #[cfg(koto_verif)]
+    pub fn verif_state(&self) -> crate::verif::VerifVmState {
+        let module_cache = self.context.module_cache.borrow();
+        let module_cache_placeholders = module_cache.values().filter(|m| m.is_none()).count();
+        crate::verif::VerifVmState {
+            registers: self.registers.len(),
+            call_stack: self.call_stack.len(),
+            sequence_builders: self.sequence_builders.len(),
+            string_builders: self.string_builders.len(),
+            register_base: self.register_base,
+            min_frame_registers: self.min_frame_registers,
+            module_cache_placeholders,
+            module_cache_entries: module_cache.len() - module_cache_placeholders,
+        }
     }
 
     /// Runs the provided [Chunk], returning the resulting [KValue]
@@ -752,6 +772,9 @@ impl KotoVm {
     }
 
     fn execute_instructions(&mut self) -> Result<KValue> {
+        #[cfg(koto_verif)]
+        let _verif_entry = crate::verif::EntryGuard::new();
+
         let mut timeout = self
             .context
             .settings
@@ -765,6 +788,9 @@ impl KotoVm {
         self.execution_state = ExecutionState::Active;
 
         while let Some(instruction) = self.reader.next() {
+            #[cfg(koto_verif)]
+            crate::verif::on_instruction();
+
             if let Some(timeout) = timeout.as_mut()
                 && timeout.check_for_timeout()
             {
